@@ -392,6 +392,9 @@ class Ctx:
             failed.append('oracle:property holds on all generated scenarios')
         violations = 0
         lines = []
+        if os.environ.get('VERIF_DEBUG'):
+            json.dump({'failures': self.failures, 'disagreements': self.disagreements},
+                      open(os.path.join(tempfile.gettempdir(), f'verif-debug-{self.prop}.json'), 'w'), default=str)
         os.makedirs(os.path.join(VERIF, 'replays'), exist_ok=True)
         for f in load_known_findings():
             if f.get('status') == 'open' and self.prop in f['properties'] and self.known_hits.get(f['id']):
